@@ -92,9 +92,18 @@ func c18GenState(c *Ctx, n int, ids []*m.Address) *storage.JSONStorageFormat {
 		pa.IP = ip
 		sr := &storage.StoredRouter{Address: &pa, Universe: pick(), Offline: c.Rng.IntN(2) == 0,
 			CreatedAt: time.Unix(int64(1600000000+c.Rng.IntN(1<<28)), int64(c.Rng.IntN(1e9))).UTC(), UpdatedAt: time.Unix(int64(1700000000+c.Rng.IntN(1<<20)), 0).UTC()}
-		if c.Rng.IntN(3) == 0 {
+		switch c.Rng.IntN(6) {
+		case 0, 1:
 			t := time.Unix(int64(1710000000+c.Rng.IntN(1<<20)), int64(c.Rng.IntN(1e9))).UTC()
 			sr.UsedAt = &t
+		case 2:
+			// set, but to the zero time (as a state file may say: "usedAt":"0001-01-01T00:00:00Z"):
+			// "set" and "never used" are different states
+			var t time.Time
+			sr.UsedAt = &t
+			if c.Rng.IntN(2) == 0 {
+				sr.CreatedAt, sr.UpdatedAt = time.Time{}, time.Time{}
+			}
 		}
 		if c.Rng.IntN(2) == 0 {
 			info := &m.RouterInfo{Version: pick(), IANA: []string{pick()}}
@@ -113,12 +122,44 @@ func c18GenState(c *Ctx, n int, ids []*m.Address) *storage.JSONStorageFormat {
 	return st
 }
 
+// canonJSON is a canonical text of a stored state that does NOT go through the storage's own
+// serialisation (struct tags are part of the code under test): every field is written out
+// explicitly, "unset" and "set to the zero time" are different.
 func canonJSON(v any) string {
-	b, _ := json.Marshal(v)
-	var x any
-	_ = json.Unmarshal(b, &x)
-	o, _ := json.Marshal(x)
-	return string(o)
+	st, ok := v.(*storage.JSONStorageFormat)
+	if !ok || st == nil {
+		b, _ := json.Marshal(v)
+		return string(b)
+	}
+	tm := func(t time.Time) string { return fmt.Sprintf("%d.%09d", t.Unix(), t.Nanosecond()) }
+	var rs []string
+	for ip, r := range st.Routers {
+		if r == nil {
+			rs = append(rs, ip.String()+"=nil")
+			continue
+		}
+		addr := "nil"
+		if r.Address != nil {
+			addr = fmt.Sprintf("%s/%s/%s/%x/%d", r.Address.IP, r.Address.Hash, r.Address.Type, []byte(r.Address.PublicKey), r.Address.Easing)
+		}
+		info := "nil"
+		if r.PublicInfo != nil {
+			b, _ := json.Marshal(r.PublicInfo)
+			info = string(b)
+		}
+		used := "unset"
+		if r.UsedAt != nil {
+			used = tm(*r.UsedAt)
+		}
+		rs = append(rs, fmt.Sprintf("%s={addr:%s info:%s universe:%q offline:%v created:%s updated:%s used:%s}", ip, addr, info, r.Universe, r.Offline, tm(r.CreatedAt), tm(r.UpdatedAt), used))
+	}
+	sort.Strings(rs)
+	var ms []string
+	for k, mp := range st.Mappings {
+		ms = append(ms, fmt.Sprintf("%q={%q %s %s}", k, mp.Domain, mp.Router, tm(mp.Created)))
+	}
+	sort.Strings(ms)
+	return strings.Join(rs, "\n") + "\n--\n" + strings.Join(ms, "\n")
 }
 
 func runC18(c *Ctx) error {
